@@ -411,4 +411,105 @@ theorem F.eq_fin {a : F} {y : Rat} (h : F.eq a (.fin y) = true) : a = .fin y := 
   | inf s => simp [F.eq] at h
   | fin x => simp [F.eq] at h; rw [h]
 
+/-- a left fold that keeps the strictly smaller tolerance ends with a minimum of the list -/
+theorem foldl_min {ι γ : Type} (L : List ι) (t : ι → Rat) (c : ι → γ) (a0 : Rat) (c0 : γ) :
+    (L.foldl (fun acc i => if t i < acc.1 then (t i, c i) else acc) (a0, c0)).1 ≤ a0 ∧
+    (∀ j ∈ L, (L.foldl (fun acc i => if t i < acc.1 then (t i, c i) else acc) (a0, c0)).1 ≤ t j) ∧
+    (L.foldl (fun acc i => if t i < acc.1 then (t i, c i) else acc) (a0, c0) = (a0, c0) ∨
+      ∃ i ∈ L, L.foldl (fun acc i => if t i < acc.1 then (t i, c i) else acc) (a0, c0) = (t i, c i)) := by
+  induction L generalizing a0 c0 with
+  | nil => exact ⟨le_refl _, fun j hj => absurd hj List.not_mem_nil, Or.inl rfl⟩
+  | cons x xs ih =>
+    simp only [List.foldl_cons]
+    by_cases hlt : t x < a0
+    · rw [if_pos hlt]
+      obtain ⟨h1, h2, h3⟩ := ih (t x) (c x)
+      refine ⟨le_trans h1 (le_of_lt hlt), ?_, ?_⟩
+      · intro j hj
+        rcases List.mem_cons.mp hj with e | e
+        · rw [e]; exact h1
+        · exact h2 j e
+      · rcases h3 with e | ⟨i, hi, e⟩
+        · exact Or.inr ⟨x, List.mem_cons_self, e⟩
+        · exact Or.inr ⟨i, List.mem_cons_of_mem _ hi, e⟩
+    · rw [if_neg hlt]
+      obtain ⟨h1, h2, h3⟩ := ih a0 c0
+      refine ⟨h1, ?_, ?_⟩
+      · intro j hj
+        rcases List.mem_cons.mp hj with e | e
+        · rw [e]; exact le_trans h1 (not_lt.mp hlt)
+        · exact h2 j e
+      · rcases h3 with e | ⟨i, hi, e⟩
+        · exact Or.inl e
+        · exact Or.inr ⟨i, List.mem_cons_of_mem _ hi, e⟩
+
+/-- binary32 rounding of any number of magnitude up to 2^100: finite, within relative 2^-24 plus
+    half the smallest subnormal -/
+theorem round_any (x : Rat) (hx : |x| ≤ (2 : Rat) ^ (100 : Int)) :
+    F.round b32 x = .fin (rnd 24 (-126) x) ∧ |rnd 24 (-126) x - x| ≤ |x| * (1 / 16777216) + (2 : Rat) ^ (-(150 : Int)) := by
+  have key : ∀ y : Rat, 0 < y → y ≤ (2 : Rat) ^ (100 : Int) →
+      |rnd 24 (-126) y - y| ≤ y * (1 / 16777216) + (2 : Rat) ^ (-(150 : Int)) := by
+    intro y hy _
+    have h := rnd_err 24 (-126) y hy
+    have hs := (ilog2_spec y hy).1
+    have hb : (2 : Rat) ^ (ulpExp 24 (-126) y) / 2 ≤ y * (1 / 16777216) + (2 : Rat) ^ (-(150 : Int)) := by
+      unfold ulpExp
+      rcases le_total (ilog2 y - ((24 : Nat) - 1 : Int)) ((-126 : Int) - ((24 : Nat) - 1 : Int)) with hle | hle
+      · rw [max_eq_right hle]
+        have : (2 : Rat) ^ ((-126 : Int) - ((24 : Nat) - 1 : Int)) / 2 = (2 : Rat) ^ (-(150 : Int)) := by norm_num
+        rw [this]
+        have : 0 ≤ y * (1 / 16777216) := by positivity
+        linarith
+      · rw [max_eq_left hle]
+        have e1 : (2 : Rat) ^ (ilog2 y - ((24 : Nat) - 1 : Int)) / 2 = (2 : Rat) ^ (ilog2 y) * (1 / 16777216) := by
+          have : ilog2 y - ((24 : Nat) - 1 : Int) = ilog2 y + (-23 : Int) := by push_cast; ring
+          rw [this, zpow_add₀ (by norm_num : (2 : Rat) ≠ 0)]
+          norm_num; ring
+        rw [e1]
+        have : (2 : Rat) ^ (ilog2 y) * (1 / 16777216) ≤ y * (1 / 16777216) := by
+          apply mul_le_mul_of_nonneg_right hs; norm_num
+        have : (0 : Rat) < (2 : Rat) ^ (-(150 : Int)) := two_zpow_pos _
+        linarith
+    exact le_trans h hb
+  have big : (2 : Rat) ^ (100 : Int) * 2 + 1 < (2 : Rat) ^ ((127 : Int) + 1) := by norm_num
+  have tiny : (2 : Rat) ^ (-(150 : Int)) ≤ 1 := by norm_num
+  rcases lt_trichotomy x 0 with hneg | hz | hpos
+  · have hy : 0 < -x := by linarith
+    have hyb : -x ≤ (2 : Rat) ^ (100 : Int) := by rw [abs_of_neg hneg] at hx; exact hx
+    have k := key (-x) hy hyb
+    have a := abs_le.mp k
+    have hr0 : 0 ≤ rnd 24 (-126) (-x) := by
+      rw [rnd_pos_eq 24 (-126) (-x) hy]
+      have : 0 ≤ roundHalfEven (-x / (2 : Rat) ^ ulpExp 24 (-126) (-x)) :=
+        rhe_ge_int _ 0 (by have := two_zpow_pos (ulpExp 24 (-126) (-x)); push_cast; positivity)
+      have h2 : (0 : Rat) ≤ ((roundHalfEven (-x / (2 : Rat) ^ ulpExp 24 (-126) (-x)) : Int) : Rat) := by exact_mod_cast this
+      exact mul_nonneg h2 (le_of_lt (two_zpow_pos _))
+    have hrb : rnd 24 (-126) (-x) < (2 : Rat) ^ ((127 : Int) + 1) := by nlinarith [a.2]
+    have := round_neg_fin b32 (-x) hrb hr0
+    rw [neg_neg] at this
+    have hrn : rnd 24 (-126) x = -rnd 24 (-126) (-x) := by
+      have := rnd_neg 24 (-126) (-x); rw [neg_neg] at this; exact this
+    refine ⟨by rw [this, hrn]; rfl, ?_⟩
+    rw [hrn, abs_of_neg hneg]
+    have : -rnd 24 (-126) (-x) - x = -(rnd 24 (-126) (-x) - -x) := by ring
+    rw [this, abs_neg]
+    exact k
+  · rw [hz]
+    have : rnd 24 (-126) 0 = 0 := by unfold rnd; simp
+    rw [this]
+    exact ⟨round_zero, by simp⟩
+  · have hyb : x ≤ (2 : Rat) ^ (100 : Int) := by rw [abs_of_pos hpos] at hx; exact hx
+    have k := key x hpos hyb
+    have a := abs_le.mp k
+    have hr0 : 0 ≤ rnd 24 (-126) x := by
+      rw [rnd_pos_eq 24 (-126) x hpos]
+      have : 0 ≤ roundHalfEven (x / (2 : Rat) ^ ulpExp 24 (-126) x) :=
+        rhe_ge_int _ 0 (by have := two_zpow_pos (ulpExp 24 (-126) x); push_cast; positivity)
+      have h2 : (0 : Rat) ≤ ((roundHalfEven (x / (2 : Rat) ^ ulpExp 24 (-126) x) : Int) : Rat) := by exact_mod_cast this
+      exact mul_nonneg h2 (le_of_lt (two_zpow_pos _))
+    have hrb : rnd 24 (-126) x < (2 : Rat) ^ ((127 : Int) + 1) := by nlinarith [a.2]
+    refine ⟨round_fin b32 x hrb hr0, ?_⟩
+    rw [abs_of_pos hpos]
+    exact k
+
 end Sx
